@@ -722,6 +722,83 @@ fn run_live(c: &[Val], expect: &[Val]) -> Val {
     Val::L(out)
 }
 
+/// child process, kind 6: the real `init_file` and the real refresh thread, polled in lock step.
+/// The `reloader_sleep` hook (commit f2da538) replaces the thread's sleep: the thread reports the
+/// interval it wants to sleep and blocks until this driver has made the next edit.  Observed per edit:
+/// (stopped, interval asked for after the poll (ms), active configuration, #set_config).  When the
+/// MODEL says the thread goes on, the driver waits (up to 20 s) for the thread's next request; when the
+/// model says the thread has stopped, the driver gives a wrongly surviving thread 300 ms to show up.
+/// `link` = 1: the path given to init_file is a symbolic link, every edit writes a new file and
+/// re-points the link (deletion removes the link).
+fn run_live2(c: &[Val], expect: &[Val]) -> Val {
+    use std::sync::mpsc;
+    let fmt = c[1].n();
+    let texts = c[2].l();
+    let init = c[3].l();
+    let link = c.len() > 6 && c[6].n() == 1;
+    let dir = tempfile::tempdir().unwrap();
+    let path = dir.path().join(format!("c.{}", ext(fmt)));
+    let mut version = 0usize;
+    let mut edit = |st: &[Val]| {
+        if !link {
+            apply_file(&path, texts, st);
+            return;
+        }
+        version += 1;
+        let target = dir.path().join(format!("v{}.{}", version, ext(fmt)));
+        let _ = std::fs::remove_file(&path);
+        if st[0].n() != 0 {
+            apply_file(&target, texts, st);
+            std::os::unix::fs::symlink(&target, &path).unwrap();
+        }
+    };
+    edit(&[Val::N(2), init[0].clone(), init[1].clone()]);
+    let (tx_req, rx_req) = mpsc::channel::<Duration>();
+    let (tx_rel, rx_rel) = mpsc::channel::<()>();
+    let rx_rel = std::sync::Mutex::new(rx_rel);
+    let tx_req = std::sync::Mutex::new(tx_req);
+    log4rs::verif_hooks::set_reloader_sleep(Some(Arc::new(move |d: Duration| {
+        let _ = tx_req.lock().unwrap().send(d);
+        let _ = rx_rel.lock().unwrap().recv();
+    })));
+    log4rs::init_file(&path, deserializers()).expect("init_file");
+    let base = CONSTRUCTED.load(Ordering::SeqCst);
+    let mut out = vec![];
+    // the interval of the first sleep = the document's refresh rate
+    let mut running = match rx_req.recv_timeout(Duration::from_secs(20)) {
+        Ok(d) => {
+            out.push(Val::L(vec![Val::N(0), Val::N(d.as_millis())]));
+            true
+        }
+        Err(_) => {
+            out.push(Val::L(vec![Val::N(1), Val::N(0)]));
+            false
+        }
+    };
+    for (st, ex) in c[4].l().iter().zip(expect.iter()) {
+        edit(st.l());
+        let mut asked = 0u128;
+        if running {
+            let _ = tx_rel.send(());
+            let model_stops = ex.l()[1].n() == 1;
+            let wait = if model_stops { Duration::from_millis(300) } else { Duration::from_secs(20) };
+            match rx_req.recv_timeout(wait) {
+                Ok(d) => asked = d.as_millis(),
+                Err(_) => running = false,
+            }
+        } else {
+            std::thread::sleep(Duration::from_millis(20));
+        }
+        out.push(Val::L(vec![
+            Val::bool(!running),
+            Val::N(asked),
+            Val::N(active_tag(log::logger())),
+            Val::N((CONSTRUCTED.load(Ordering::SeqCst) - base) as u128),
+        ]));
+    }
+    Val::L(out)
+}
+
 /// child process: the global logger behind the `log` facade
 fn run_facade(c: &[Val]) -> Val {
     let cfgs = c[1].l();
@@ -776,6 +853,24 @@ fn main() {
         vh::val::print(&res, &mut buf);
         println!("{}", buf);
         // the reloader thread may still be running
+        std::process::exit(0);
+    }
+    if args.len() > 1 && args[1] == "live2" {
+        std::panic::set_hook(Box::new(|_| {}));
+        let mut lines = vec![];
+        for l in std::io::stdin().lines() {
+            lines.push(l.unwrap());
+        }
+        let case = vh::val::parse(&lines[0]);
+        let expect = vh::val::parse(&lines[1]);
+        let res = match std::panic::catch_unwind(|| run_live2(case.l(), expect.l())) {
+            Ok(v) => v,
+            Err(_) => Val::panic(),
+        };
+        let mut buf = String::new();
+        vh::val::print(&res, &mut buf);
+        println!("{}", buf);
+        // the refresh thread may be blocked in the hook
         std::process::exit(0);
     }
     if args.len() > 1 && args[1] == "facade" {
